@@ -113,6 +113,14 @@ fn classify_session(drv: &mut SessionDrv, got: &Value, want: &Value, lifecycle: 
             return ("session-hangs".into(), format!("still pending after {polls} more polls; {detail}"));
         }
     }
+    // the same operation written twice to the remote (Sync Operation or Live) where the spec writes it once
+    let dup_on_wire = |v: &Value| {
+        let mut seen = std::collections::BTreeSet::new();
+        v["sent"].as_array().map(|a| a.iter().filter(|m| m["k"] == "Op" || m["k"] == "Live").any(|m| !seen.insert(m["x"].as_str().unwrap_or("").to_string()))).unwrap_or(false)
+    };
+    if dup_on_wire(got) && !dup_on_wire(want) {
+        return ("operation-on-wire-twice".into(), detail);
+    }
     if gr != wr {
         return ("result-differs-from-spec".into(), detail);
     }
